@@ -24,6 +24,7 @@ import (
 
 	"seehuhn.de/go/sfnt/cff"
 	"seehuhn.de/go/sfnt/glyf"
+	"seehuhn.de/go/sfnt/glyph"
 	"seehuhn.de/go/sfnt/opentype/gtab"
 )
 
@@ -96,7 +97,7 @@ func (f *Font) MakeGlyphNames() []string {
 		a, b := cmap.CodeRange()
 		for r := a; r <= b; r++ {
 			gid := cmap.Lookup(r)
-			if glyphNames[gid] != "" {
+			if int(gid) >= len(glyphNames) || glyphNames[gid] != "" {
 				// This includes the case of unmapped runes (gid == 0).
 				continue
 			}
@@ -110,13 +111,18 @@ func (f *Font) MakeGlyphNames() []string {
 
 	if f.Gsub != nil {
 		// Coverage tables are visited in order of increasing glyph ID, so that
-		// the result does not depend on the map iteration order.
+		// the result does not depend on the map iteration order.  Glyph IDs
+		// outside the font are ignored.
+		valid := func(gid glyph.ID) bool { return int(gid) < len(glyphNames) }
 		for _, lookup := range f.Gsub.LookupList {
 			for _, subtable := range lookup.Subtables {
 				switch subtable := subtable.(type) {
 				case *gtab.Gsub1_1:
 					for _, origGid := range subtable.Cov.Glyphs() {
 						newGid := origGid + subtable.Delta
+						if !valid(origGid) || !valid(newGid) {
+							continue
+						}
 						if glyphNames[origGid] == "" || glyphNames[newGid] != "" {
 							continue
 						}
@@ -125,7 +131,13 @@ func (f *Font) MakeGlyphNames() []string {
 				case *gtab.Gsub1_2:
 					for _, origGid := range subtable.Cov.Glyphs() {
 						idx := subtable.Cov[origGid]
+						if !valid(origGid) || idx < 0 || idx >= len(subtable.SubstituteGlyphIDs) {
+							continue
+						}
 						newGid := subtable.SubstituteGlyphIDs[idx]
+						if !valid(newGid) {
+							continue
+						}
 						if glyphNames[origGid] == "" || glyphNames[newGid] != "" {
 							continue
 						}
@@ -134,11 +146,14 @@ func (f *Font) MakeGlyphNames() []string {
 				case *gtab.Gsub3_1:
 					for _, origGid := range subtable.Cov.Glyphs() {
 						idx := subtable.Cov[origGid]
+						if !valid(origGid) || idx < 0 || idx >= len(subtable.Alternates) {
+							continue
+						}
 						if glyphNames[origGid] == "" {
 							continue
 						}
 						for _, newGid := range subtable.Alternates[idx] {
-							if glyphNames[newGid] == "" {
+							if valid(newGid) && glyphNames[newGid] == "" {
 								glyphNames[newGid] = makeVariant(used, glyphNames[origGid])
 							}
 						}
@@ -147,6 +162,9 @@ func (f *Font) MakeGlyphNames() []string {
 					var nn []string
 					for _, origGid := range subtable.Cov.Glyphs() {
 						idx := subtable.Cov[origGid]
+						if !valid(origGid) || idx < 0 || idx >= len(subtable.Repl) {
+							continue
+						}
 						name := glyphNames[origGid]
 						if name == "" {
 							continue
@@ -155,11 +173,14 @@ func (f *Font) MakeGlyphNames() []string {
 					replLoop:
 						for _, lig := range subtable.Repl[idx] {
 							nn = nn[:1]
-							if glyphNames[lig.Out] != "" {
+							if !valid(lig.Out) || glyphNames[lig.Out] != "" {
 								// keep existing names
 								continue
 							}
 							for _, gid := range lig.In {
+								if !valid(gid) {
+									continue replLoop
+								}
 								if name := glyphNames[gid]; name != "" {
 									nn = append(nn, name)
 								} else {
